@@ -356,4 +356,152 @@ func TestC12(t *testing.T) {
 	r := hx.Start(t, "C12")
 	defer r.Finish(t)
 	hx.Rapid(r, t, "histories", r.N(3000, 30000), genC12, c12Prop(t, r))
+	// an inbound connection racing the protocol error, with each schedule point held in turn
+	reps := r.N(2, 12)
+	hx.Enum(r, t, "inbound_races_error", 0, func(yield func(c12RaceCase) bool) {
+		for rep := 0; rep < reps; rep++ {
+			for _, state := range []string{stOpenSent, stOpenConfirm, stEstablished} {
+				for _, kind := range []string{"recv", "marker"} {
+					for _, cf := range []bool{true, false} {
+						if !yield(c12RaceCase{State: state, Kind: kind, ConnFirst: cf}) {
+							return
+						}
+						for _, pt := range []string{"fsm.transition", "peer.loop"} {
+							for skip := 0; skip < 3; skip++ {
+								for _, d := range []int64{10, 50, 150} {
+									if !yield(c12RaceCase{State: state, Kind: kind, ConnFirst: cf, Point: pt, Skip: skip, D: d}) {
+										return
+									}
+									if pt == "fsm.transition" && !yield(c12RaceCase{State: state, Kind: kind, ConnFirst: cf, Point: pt, Skip: skip, D: d, Point2: "peer.loop", Skip2: skip % 2}) {
+										return
+									}
+								}
+							}
+						}
+					}
+				}
+			}
+		}
+	}, c12RaceProp(t, r, "inbound_races_error"))
+}
+
+// ---- an inbound connection arriving at the instant of the protocol error
+
+// The error and the inbound connection reach the peer manager in the same
+// burst, with the new inbound FSM or the manager held at a schedule point for
+// a while. Whatever the order, once the dust has settled nothing of the peer
+// may be open ("drops both connections ... refuses its inbound connections"),
+// and the peer stays silent for the hold-down.
+type c12RaceCase struct {
+	State     string `json:"state"` // state of the outbound connection when the error happens
+	Kind      string `json:"kind"`  // recv (remote sends code 2), marker (corebgp sends code 1)
+	ConnFirst bool   `json:"conn_first"`
+	Point     string `json:"point,omitempty"` // armed schedule point
+	Skip      int    `json:"skip"`
+	D         int64  `json:"d"`
+	Point2    string `json:"point2,omitempty"`
+	Skip2     int    `json:"skip2,omitempty"`
+}
+
+func c12RaceProp(t *testing.T, r *hx.Run, sub string) func(c c12RaceCase) hx.Verdict {
+	return func(c c12RaceCase) hx.Verdict {
+		r.SetCurrent(sub, c)
+		v := hx.Verdict{Class: fmt.Sprintf("%s/%s/connfirst=%v/armed=%v", c.State, c.Kind, c.ConnFirst, c.Point != "")}
+		if c.Point != "" {
+			v.NT = fmt.Sprintf("%+v", c)
+		}
+		p := world.PeerSpec{Remote: "10.0.0.2", LocalAS: 64512, RemoteAS: 64513, Hold: 90, IdleHoldMs: 1000, ConnRetryMs: 2000}
+		var dev *hx.Dev
+		fail := func(key, f string, a ...any) {
+			if dev == nil {
+				dev = hx.Devf(key, f, a...)
+			}
+		}
+		o := world.Run(t, func() {
+			w, err := world.New("10.0.0.1", []int64{0})
+			if err != nil {
+				fail("setup", "%v", err)
+				return
+			}
+			defer func() {
+				if dev != nil {
+					dev.Msg += "\n" + w.Dump()
+				}
+				w.Finish()
+			}()
+			w.Net.SetPlans(p.RemoteAddr(), memnet.DialPlan{Kind: memnet.Accept}, memnet.DialPlan{Kind: memnet.Refuse})
+			if err := w.AddPeer(p); err != nil {
+				fail("setup", "%v", err)
+				return
+			}
+			w.Serve()
+			w.Settle()
+			out := w.DialedConn(p.Remote, 0)
+			if out == nil {
+				fail("setup", "no outbound connection")
+				return
+			}
+			for _, m := range handshakeBytes(p, out, c.State, 90) {
+				out.RemoteSend(m, nil)
+				w.Settle()
+			}
+			if c.Point != "" {
+				w.Arm(c.Point, c.Skip, c.D)
+			}
+			if c.Point2 != "" {
+				w.Arm(c.Point2, c.Skip2, c.D)
+			}
+			bad := wire.Keepalive()
+			bad[3] = 0
+			sendErr := func() {
+				if c.Kind == "recv" {
+					out.RemoteSend(wire.Notif{Code: 2, Sub: 2}.Frame(), nil)
+				} else {
+					out.RemoteSend(bad, nil)
+				}
+			}
+			var in *memnet.Conn
+			te := w.Net.Since()
+			if c.ConnFirst {
+				in = w.Inbound(p.Remote, "10.0.0.1")
+				sendErr()
+			} else {
+				sendErr()
+				in = w.Inbound(p.Remote, "10.0.0.1")
+			}
+			w.Settle()
+			if !out.Snapshot().LocalClosed {
+				fail("connection-not-dropped", "the outbound connection is still open after the protocol error")
+				return
+			}
+			is := in.Snapshot()
+			if !is.LocalClosed {
+				fail("inbound-survives-protocol-error", "an inbound connection that arrived in the same instant as the protocol error is still open when the dust has settled (corebgp wrote %d bytes on it): the peer must be held down", len(is.Bytes()))
+				return
+			}
+			// silent for the hold-down: no dial, no session, probes refused
+			nd := len(w.Net.Dials())
+			for _, at := range []time.Duration{time.Second, 30 * time.Second, 59 * time.Second} {
+				w.Advance(te + at - w.Net.Since())
+				pr := w.Inbound(p.Remote, "10.0.0.1")
+				w.Settle()
+				if ps := pr.Snapshot(); len(ps.Writes) != 0 || !ps.LocalClosed {
+					fail("inbound-during-holddown", "an inbound connection %v into the hold-down was served: bytes=%d closed=%v", at, len(ps.Bytes()), ps.LocalClosed)
+					return
+				}
+			}
+			if n := len(w.Net.Dials()); n != nd {
+				fail("dial-during-holddown", "%d dial attempts during the first 59 s of the hold-down", n-nd)
+				return
+			}
+			if w.Sessions(p.Remote) != map[bool]int{true: 1, false: 0}[c.State == stEstablished] {
+				fail("session-during-holddown", "a session was established during the hold-down")
+			}
+		})
+		if b := o.Bad(); b != "" {
+			fail("wedge", "%s", b)
+		}
+		v.Dev = dev
+		return v
+	}
 }
